@@ -147,10 +147,17 @@ func UpdateColocationStrategyForNode(strategy *configuration.ColocationStrategy,
 	if err != nil {
 		klog.V(5).Infof("failed to parse node colocation strategy for node %s, err: %s", node.Name, err)
 	} else if strategyOnNode != nil {
-		merged, _ := util.MergeCfg(strategy, strategyOnNode)
-		*strategy = *(merged.(*configuration.ColocationStrategy))
-		klog.V(6).Infof("node %s use merged colocation strategy from node annotations, merged: %+v",
-			node.Name, strategy)
+		// merge into a copy: the node-level strategy is not validated anywhere else, and an invalid one
+		// (e.g. a negative threshold percent) must not reach the resource calculation
+		merged, _ := util.MergeCfg(strategy.DeepCopy(), strategyOnNode)
+		if mergedStrategy := merged.(*configuration.ColocationStrategy); IsColocationStrategyValid(mergedStrategy) {
+			*strategy = *mergedStrategy
+			klog.V(6).Infof("node %s use merged colocation strategy from node annotations, merged: %+v",
+				node.Name, strategy)
+		} else {
+			klog.V(4).Infof("node %s has an invalid colocation strategy in node annotations, ignored: %+v",
+				node.Name, strategyOnNode)
+		}
 	}
 
 	cpuReclaimPercent := getNodeReclaimPercent(node, extension.LabelCPUReclaimRatio)
